@@ -353,6 +353,7 @@ func runC18(e *Engine, r *Report) {
 	// ---- a removed replica stops campaigning: the election timer is gated by selfRemoved()
 	ruleElectionMessageGuard(e, r)
 	ruleHintVoting(e, r)
+	ruleSingleNodeQuorum(e, r)
 }
 
 func itoa(i int) string {
